@@ -13,6 +13,7 @@ Sgn(x) == IF x > 0 THEN 1 ELSE IF x < 0 THEN -1 ELSE 0
 Ops == {[op |-> "setTf", v |-> v] : v \in Ticks} \cup {[op |-> "setT0", v |-> v] : v \in Ticks}
        \cup {[op |-> "setDt", v |-> v] : v \in {-1, 1}} \cup {[op |-> "setMethod", v |-> m] : m \in Methods}
        \cup {[op |-> "integrate", v |-> 0], [op |-> "reset", v |-> 0], [op |-> "print", v |-> 0]}
+       \cup {[op |-> "integrateTo", v |-> v] : v \in Ticks}          \* integrate(t = v): any target, before or beyond tf, forward or backward
 
 Init0 == [t0 |-> 0, tf |-> 2, dtSign |-> {1}, status |-> "notrun", method |-> "RK4Solver", pos |-> 0, pos0 |-> 0, moved |-> FALSE, rows |-> 1]      \* pos0: the time of the first recorded row (the constructor's t0; setting t0 later does not move it)
 
@@ -29,6 +30,8 @@ Apply(s, o) ==
       [] o.op = "setMethod" -> IF Canon(o.v) = "none" THEN <<s, "ValueError">> ELSE <<[s EXCEPT !.method = Canon(o.v)], "ok">>
       [] o.op = "integrate" -> IF s.pos = s.tf THEN <<s, "ok">>
                                 ELSE <<[s EXCEPT !.pos = s.tf, !.status = "done", !.moved = TRUE, !.dtSign = {Sgn(s.tf - s.pos), Sgn(s.tf - s.t0)}, !.rows = 2], "ok">>
+      [] o.op = "integrateTo" -> IF s.pos = o.v THEN <<s, "ok">>
+                                  ELSE <<[s EXCEPT !.pos = o.v, !.status = "done", !.moved = TRUE, !.dtSign = {Sgn(o.v - s.pos), Sgn(s.tf - s.t0)}, !.rows = 2], "ok">>
       [] o.op = "reset" -> <<[s EXCEPT !.pos = s.pos0, !.status = "notrun", !.moved = FALSE, !.dtSign = {Sgn(s.tf - s.t0)}, !.rows = 1], "ok">>
       [] o.op = "print" -> <<s, "ok">>
 
